@@ -15,26 +15,28 @@
 EXTENDS Naturals, Sequences, FiniteSets, Json, IOUtils, TLC
 
 Rec == ndJsonDeserialize(IOEnv.TRACE)
-VARIABLES l, ignoredP, ignoredL
+VARIABLES l, ignoredP, ignoredL, ignoredW
 
 Elems(s) == {s[i] : i \in DOMAIN s}
-TraceInit == l = 1 /\ ignoredP = {} /\ ignoredL = {}
+TraceInit == l = 1 /\ ignoredP = {} /\ ignoredL = {} /\ ignoredW = {}
 Step(e) ==
-  CASE e.ev = "Reset" -> ignoredP' = {} /\ ignoredL' = {}
-    [] e.ev = "Ignored" -> ignoredP' = ignoredP \cup {e.pid} /\ ignoredL' = ignoredL \cup {e.lpid}
-    [] e.ev \in {"Edit", "ExportImport"} -> UNCHANGED <<ignoredP, ignoredL>>
+  CASE e.ev = "Reset" -> ignoredP' = {} /\ ignoredL' = {} /\ ignoredW' = {}
+    [] e.ev = "Ignored" -> /\ ignoredP' = ignoredP \cup {e.pid} /\ ignoredL' = ignoredL \cup {e.lpid}
+                           \* the JS-facing linter only ignored it if it was showing it (e.w)
+                           /\ ignoredW' = IF e.w THEN ignoredW \cup {e.pid} ELSE ignoredW
+    [] e.ev \in {"Edit", "ExportImport"} -> UNCHANGED <<ignoredP, ignoredL, ignoredW>>
     [] e.ev = "Lints" ->
-         /\ UNCHANGED <<ignoredP, ignoredL>>
+         /\ UNCHANGED <<ignoredP, ignoredL, ignoredW>>
          /\ LET vis == Elems(e.visible)
                 back == {i \in DOMAIN e.all : e.all[i].pid \in ignoredP /\ e.all[i].id \in vis}
                 lost == {i \in DOMAIN e.all : e.all[i].lpid \notin ignoredL /\ e.all[i].id \notin vis}
-                wback == {i \in DOMAIN e.all : e.wasm /\ e.all[i].pid \in ignoredP /\ e.all[i].wv}
+                wback == {i \in DOMAIN e.all : e.wasm /\ e.all[i].pid \in ignoredW /\ e.all[i].wv}
             IN IF back # {} THEN PrintT(<<"REJECT", l, "ignored-lint-is-reported", CHOOSE i \in back : TRUE>>)
                ELSE IF lost # {} THEN PrintT(<<"REJECT", l, "a-different-lint-is-hidden", CHOOSE i \in lost : TRUE>>)
                ELSE IF wback # {} THEN PrintT(<<"REJECT", l, "js-linter-reports-ignored-lint", CHOOSE i \in wback : TRUE>>)
                ELSE TRUE
-    [] e.ev = "Panic" -> UNCHANGED <<ignoredP, ignoredL>>
-    [] OTHER -> UNCHANGED <<ignoredP, ignoredL>> /\ PrintT(<<"REJECT", l, "unknown-event", 0>>)
+    [] e.ev = "Panic" -> UNCHANGED <<ignoredP, ignoredL, ignoredW>>
+    [] OTHER -> UNCHANGED <<ignoredP, ignoredL, ignoredW>> /\ PrintT(<<"REJECT", l, "unknown-event", 0>>)
 
 TraceNext == l <= Len(Rec) /\ Step(Rec[l]) /\ l' = l + 1
 Consumed == PrintT(<<"CONSUMED", TLCGet("stats").diameter - 1>>)
